@@ -104,6 +104,7 @@ struct lib {
 	String		idName;		/* Name of initialiser */
 	FILE *		file;
 	Offset		offset;		/* Offset of hdr in file. */
+	Bool		isOutput;	/* Opened by libWrite: write errors matter. */
 	Syme		self;		/* Library syme for this lib. */
 	Stab		stab;		/* Stab for symes, tforms. */
 
